@@ -4048,6 +4048,14 @@ def aten_flatten(self: TTensor, start_dim: int = 0, end_dim: int = -1) -> TTenso
     if end_dim < 0:
         end_dim = dim + end_dim
 
+    if all(isinstance(size, int) for size in self.shape):
+        # Static shape: compute the target here. Reshape's 0 ("copy the input dim") and -1 conventions
+        # give wrong shapes or fail when the tensor has 0-size dimensions.
+        shape = list(self.shape)
+        flattened = math.prod(shape[start_dim : end_dim + 1])
+        final_shape = [*shape[:start_dim], flattened, *shape[end_dim + 1 :]]
+        return op.Reshape(self, op.Constant(value_ints=final_shape), allowzero=True)
+
     input_size = op.Shape(self)
     dim_head = op.Slice(
         input_size,
